@@ -270,6 +270,22 @@ pub fn templates(seed: u64, n_random_each: usize, steps: usize) -> Vec<Scenario>
         ops.extend([Op::Issue { origin: 0, h2: false }, Op::Poll(1), Op::Respond(0), Op::Poll(0), Op::BodyDone(0), Op::Bg, Op::Close(0), Op::Poll(1)]);
         push("close-while-in-waiter-channel", c, ops, &mut rng, &mut out);
 
+        // T6b: a response body left unread for longer than the idle timeout, then the next request (C02)
+        for open_ignores_busy in [true, false] {
+            let mut c = cfgs(&mut rng);
+            c.idle_timeout_ms = Some(10_000);
+            c.open_ignores_busy = open_ignores_busy;
+            let ops = vec![
+                Op::Issue { origin: 0, h2: false }, Op::Poll(0), Op::DialOk(0), Op::Poll(0), Op::HsOk(0), Op::Poll(0), Op::Respond(0), Op::Poll(0), Op::Bg,
+                Op::Advance(10_001), Op::Bg, Op::Bg, Op::Issue { origin: 0, h2: false }, Op::Poll(1), Op::Bg, Op::Poll(1), Op::Advance(10_001), Op::Bg, Op::Poll(1),
+            ];
+            push("body-unread-past-idle-timeout", c, ops, &mut rng, &mut out);
+            // virtual time: Advance moves the paused clock
+            for s in out.iter_mut().rev().take(1 + n_random_each) {
+                s.paused = true;
+            }
+        }
+
         // T7: upgrade takes the connection over
         let c = cfgs(&mut rng);
         let ops = vec![Op::Issue { origin: 0, h2: false }, Op::Poll(0), Op::DialOk(0), Op::Poll(0), Op::HsOk(0), Op::Poll(0), Op::RespondUpgrade(0), Op::Poll(0), Op::Bg, Op::Issue { origin: 0, h2: false }, Op::Poll(1)];
@@ -310,7 +326,7 @@ pub fn templates(seed: u64, n_random_each: usize, steps: usize) -> Vec<Scenario>
 
         // T9: several origins at once (C06)
         let mut c = cfgs(&mut rng);
-        c.origins = vec![origin("http://a.test"), origin("https://a.test"), origin("http://a.test:81"), origin("http://A.test"), origin("http://b.test"), origin("http://a.test:443"), origin("https://a.test:80"), origin("http://a.test:80")];
+        c.origins = vec![origin("http://a.test"), origin("https://a.test"), origin("http://a.test:81"), origin("http://A.test"), origin("http://b.test"), origin("http://a.test:443"), origin("https://a.test:80"), origin("http://a.test:80"), origin("http://a.test@b.test"), origin("http://b.test@a.test")];
         let mut ops = vec![];
         ops.extend(exchange(0, false, 0, 0));
         ops.extend(exchange(1, false, 1, 1));
@@ -322,6 +338,23 @@ pub fn templates(seed: u64, n_random_each: usize, steps: usize) -> Vec<Scenario>
             let mut s = Scenario::new("many-origins", c.clone(), ops.clone());
             s.random = Some((rng.gen(), steps + 10));
             s.max_reqs = 10;
+            out.push(s);
+        }
+
+        // T9b: more origins than any key-table housekeeping threshold, one of them with its only connection
+        // checked out while the others come and go (C06)
+        {
+            let mut c = cfgs(&mut rng);
+            let n_or = 70usize;
+            c.origins = (0..n_or).map(|i| origin(&format!("http://h{i}.test"))).collect();
+            let mut ops = vec![Op::Issue { origin: 0, h2: false }, Op::Poll(0), Op::DialOk(0), Op::Poll(0), Op::HsOk(0), Op::Poll(0)];
+            for i in 1..(n_or - 2) {
+                ops.extend([Op::Issue { origin: i, h2: false }, Op::Poll(i), Op::DialErr(i), Op::Poll(i)]);
+            }
+            let last = n_or - 2;
+            ops.extend([Op::Issue { origin: last, h2: false }, Op::Poll(last), Op::Respond(0), Op::Poll(0), Op::BodyDone(0), Op::Bg, Op::Bg, Op::Poll(last), Op::Issue { origin: n_or - 1, h2: false }, Op::Poll(last + 1)]);
+            let mut s = Scenario::new("key-table-pressure", c, ops);
+            s.max_reqs = n_or + 2;
             out.push(s);
         }
 
@@ -354,8 +387,9 @@ pub fn random_walks(seed: u64, n: usize) -> Vec<Scenario> {
         c.max_idle_per_host = *[0usize, 1, 2, 3, 32].choose(&mut rng).unwrap();
         c.idle_timeout_ms = *[None, Some(0), Some(10_000)].choose(&mut rng).unwrap();
         c.open_ignores_busy = rng.gen_bool(0.5);
-        match i % 5 {
+        match i % 6 {
             0 => {}
+            5 => c.origins = vec![origin("http://a.test@b.test"), origin("http://a.test"), origin("http://b.test"), origin("http://user:pw@a.test"), origin("http://b.test@a.test")],
             1 => c.origins = vec![origin("http://a.test"), origin("https://a.test"), origin("http://a.test:443"), origin("https://a.test:80")],
             2 => c.origins = vec![origin("http://a.test"), origin("http://a.test:81"), origin("http://b.test")],
             3 => c.origins = vec![OriginCfg { uri: "https://alpn.test".into(), alpn_h2: true }, origin("http://A.test"), origin("http://a.test")],
@@ -418,6 +452,36 @@ pub fn expiry_scenarios(seed: u64, n: usize) -> Vec<Scenario> {
                 }
             }
         }
+    }
+    // HTTP/2: the shared connection expires when it is unused for longer than the timeout (C05), and it does not
+    // expire while it is used with gaps shorter than the timeout, however long ago it was created (C04)
+    for timeout in [Some(60u64), Some(0), None] {
+        for gap in [0u64, 130] {
+            for cont in [true, false] {
+                let mut c = default_config();
+                c.idle_timeout_ms = timeout;
+                c.continue_after_preemption = cont;
+                let mut ops = vec![Op::Issue { origin: 0, h2: true }, Op::Poll(0), Op::DialOk(0), Op::Poll(0), Op::HsOk(0), Op::Poll(0), Op::Respond(0), Op::Poll(0), Op::Bg];
+                if gap > 0 {
+                    ops.push(Op::Sleep(gap));
+                }
+                ops.extend([Op::Issue { origin: 0, h2: true }, Op::Poll(1), Op::Bg, Op::Issue { origin: 0, h2: true }, Op::Poll(2)]);
+                let mut s = Scenario::new("h2-idle-expiry", c, ops);
+                s.max_reqs = 4;
+                out.push(s);
+            }
+        }
+    }
+    for (timeout, gap, rounds) in [(200u64, 40u64, 8usize), (150, 30, 8)] {
+        let mut c = default_config();
+        c.idle_timeout_ms = Some(timeout);
+        let mut ops = vec![Op::Issue { origin: 0, h2: true }, Op::Poll(0), Op::DialOk(0), Op::Poll(0), Op::HsOk(0), Op::Poll(0), Op::Respond(0), Op::Poll(0), Op::Bg];
+        for r in 1..=rounds {
+            ops.extend([Op::Sleep(gap), Op::Issue { origin: 0, h2: true }, Op::Poll(r), Op::Respond(r), Op::Poll(r), Op::Bg]);
+        }
+        let mut s = Scenario::new("h2-kept-alive-by-use", c, ops);
+        s.max_reqs = rounds + 2;
+        out.push(s);
     }
     for i in 0..n {
         let mut c = default_config();
